@@ -617,8 +617,8 @@ func c34Suffix(p *core.Prog, r *core.Report) {
 
 func c34Errors(p *core.Prog, r *core.Report) {
 	const rule = "parse-errors"
-	parsers := core.Or(call("strconv.ParseUint", "strconv.ParseInt", "time.ParseDuration", "github.com/dustin/go-humanize.ParseBytes",
-		"toml.parseBytesUnsigned", "toml.parseBytesSigned", "toml.rewriteBareIECSuffix", "toml.unmarshalSizeV1"), funcValueErrCall8)
+	parsers := core.Or(call(append([]string{"strconv.ParseUint", "strconv.ParseInt", "time.ParseDuration", "github.com/dustin/go-humanize.ParseBytes",
+		"toml.parseBytesUnsigned", "toml.parseBytesSigned", "toml.rewriteBareIECSuffix", "toml.unmarshalSizeV1"}, tomlParserWrappers(p, nil)...)...), funcValueErrCall8)
 	for _, t := range []struct {
 		fn  string
 		min int
@@ -722,7 +722,14 @@ func c34Wire(p *core.Prog, r *core.Report) {
 					has = true
 				}
 			}
-			r.Check(!has, rule, tomlPk8+"."+name, "MarshalText-present", "-", name+" does not implement encoding.TextMarshaler (a humanized text form would not parse back to the same value)")
+			// a text form is acceptable only if it is exact: it must not be produced by humanize
+			lossy := false
+			if has {
+				if mf := p.Func(tomlPk8, name+".MarshalText"); mf != nil && mf.Decl.Body != nil {
+					lossy = len(core.AllCalls(mf.Info(), mf.Decl.Body, call("github.com/dustin/go-humanize.*"))) > 0
+				}
+			}
+			r.Check(!lossy, rule, tomlPk8+"."+name, "MarshalText-humanized", "-", name+" has no humanized text form (a humanized value would not parse back to the same value); no TextMarshaler at all, or an exact one, is fine")
 		}
 	}
 	for _, name := range []string{"SizeV1", "SSizeV1"} {
@@ -801,4 +808,43 @@ func c34Wire(p *core.Prog, r *core.Report) {
 		}
 	}
 	_ = strings.TrimSpace
+}
+
+// tomlParserWrappers: functions of package toml with an error result that call a
+// byte-size / integer parser (humanize.ParseBytes, strconv.Parse*, or another
+// wrapper): a parser extracted into or wrapped by a helper stays in the parser
+// class. want, when non-nil, restricts the first result type.
+func tomlParserWrappers(p *core.Prog, want func(*types.Signature) bool) []string {
+	base := []string{"github.com/dustin/go-humanize.ParseBytes", "strconv.ParseUint", "strconv.ParseInt"}
+	in := map[string]bool{}
+	for changed := true; changed; {
+		changed = false
+		names := append([]string{}, base...)
+		for n := range in {
+			names = append(names, n)
+		}
+		m := call(names...)
+		for _, f := range p.Funcs(tomlPk8) {
+			if f.Decl == nil || f.Decl.Body == nil || f.Obj == nil || in[f.String()] {
+				continue
+			}
+			sig := f.Obj.Type().(*types.Signature)
+			if sig.Recv() != nil || sig.Results().Len() < 2 || !core.IsErrorType(sig.Results().At(sig.Results().Len()-1).Type()) {
+				continue
+			}
+			if want != nil && !want(sig) {
+				continue
+			}
+			if len(core.AllCalls(f.Info(), f.Decl.Body, m)) > 0 {
+				in[f.String()] = true
+				changed = true
+			}
+		}
+	}
+	var out []string
+	for n := range in {
+		out = append(out, n)
+	}
+	sort.Strings(out)
+	return out
 }
